@@ -5,7 +5,6 @@ import (
 	"go/ast"
 	"go/token"
 	"go/types"
-	"golang.org/x/tools/go/types/typeutil"
 	"strings"
 
 	"cachelint/pw"
@@ -367,41 +366,64 @@ func (c *Ctx) c15WhoRemovesLabels() {
 // the backend instance as the default deleter (an index without it invalidates nothing and reports success).
 func (c *Ctx) c15DefaultDeleter() {
 	r := c.R
-	info := c.Pkg.TypesInfo
 	for _, b := range backends {
 		ctor := "New" + b.Wrapper
-		fd, _ := c.funcDecl(ctor)
-		if fd == nil {
-			r.Unknown("R15.6", ctor, "constructor does not resolve")
+		pol := pw.Policy{Inline: func(fn *types.Func, d int) bool {
+			return inlineUnexported(fn, d) || pw.FuncName(fn) == "cache.NewInvalidationIndex"
+		}, MaxDepth: 2}
+		_, paths, _, err := c.runFunc(ctor, pol)
+		if err != nil {
+			r.Unknown("R15.6", ctor, err.Error())
 			continue
 		}
-		n, ok := 0, false
-		ast.Inspect(fd.Body, func(x ast.Node) bool {
-			call, isCall := x.(*ast.CallExpr)
-			if !isCall {
-				return true
-			}
-			callee, _ := typeutil.Callee(info, call).(*types.Func)
-			if callee == nil || callee.Name() != "NewInvalidationIndex" {
-				return true
+		n, nIdx, bad := 0, 0, false
+		for _, p := range paths {
+			if p.Panic || len(p.Ret) == 0 {
+				continue
 			}
 			n++
-			for _, a := range call.Args {
-				if t := info.TypeOf(a); t != nil {
-					if tn := namedTypeName(t); tn == b.Name || tn == b.Wrapper {
-						ok = true
+			// the index installed in the instance
+			var idx *pw.Val
+			for _, ev := range p.Events {
+				if ev.Kind == pw.EvFieldWrite && ev.Field != nil && ev.Field.Name() == "InvalidationIndex" && ev.Value != nil {
+					idx = pointee(ev.Value)
+				}
+			}
+			if idx == nil || idx.Kind != pw.KAlloc {
+				continue
+			}
+			nIdx++
+			dmap := p.FieldOf(idx, actualField("InvalidationIndex", "deleters"))
+			ok := false
+			for _, ev := range p.Events {
+				if ev.Kind != pw.EvMapInsert || ev.Recv == nil || dmap == nil || ev.Recv != dmap || constString(ev.Key) != "default" {
+					continue
+				}
+				vals := []*pw.Val{ev.Value}
+				if ev.Value != nil {
+					vals = append(vals, ev.Value.Elems...)
+				}
+				for _, v := range vals {
+					for v != nil && v.Kind == pw.KConv {
+						v = v.Src
+					}
+					if v != nil && v.Type != nil {
+						if tn := namedTypeName(v.Type); tn == b.Name || tn == b.Wrapper {
+							ok = true
+						}
 					}
 				}
 			}
-			return true
-		})
+			if !ok && !bad {
+				bad = true
+				r.Bad("R15.6", ctor, "index-without-own-deleter", c.Pos(p.RetPos), "the backend's label index is not created with the backend itself as deleter of the \"default\" cache name (the name AddInvalidationLabels files labels under): InvalidateByLabels on it removes nothing", shortTrace(p))
+			}
+		}
 		switch {
-		case n == 0:
-			r.Unknown("R15.6", ctor, "the constructor does not create a label index")
-		case !ok:
-			r.Bad("R15.6", ctor, "index-without-own-deleter", c.Pos(fd.Pos()), "the backend's label index is created without the backend itself as deleter: InvalidateByLabels on it removes nothing", nil)
-		default:
-			r.OK("R15.6", ctor, "label index created with the backend as default deleter")
+		case nIdx == 0:
+			r.Unknown("R15.6", ctor, fmt.Sprintf("the constructor does not create a label index (%d returning paths)", n))
+		case !bad:
+			r.OK("R15.6", ctor, "label index created with the backend as deleter of the default cache name")
 		}
 	}
 }
